@@ -230,11 +230,13 @@ def build2(case):
     add(['REM', 'c02', 'by-construction', 'file'])
     add(['REM', 'sentinels', 'follow', 'the', 'line', 'under', 'test'])
     if pos == 'instr':
-        place(line, 'test')
+        for _ in range(case.get('repeat', 1)):      # the same instruction several times in a row (what its handler leaves behind)
+            place(line, 'test')
     add(['L.S.', '10'])
     add(['PLAN', '5'])
     if pos == 'fvar':
-        add(line, 'test')
+        for _ in range(case.get('repeat', 1)):
+            add(line, 'test')
     else:
         add(['FVAR', '0.51234', '0.61234', '0.71234'])
     add(atom_line('C1', 1, 1), 'atom:C1')
@@ -473,7 +475,7 @@ def _evaluate(ctx, cases, workdir):
         sent = set(want_atoms)
         last = nphys - 1
         ctx.count([st, case.get('kwtext', case['kw']), case['toks'], case['pos'], case.get('symm', True), case.get('wrap', False), case.get('via'),
-                   case.get('header'), case.get('layout'), case.get('ambient')],
+                   case.get('header'), case.get('layout'), case.get('ambient'), case.get('repeat')],
                   nontrivial=acc['branch'] not in ('none', 'else') or case['pos'] == 'frag',
                   tags=[st, 'kw:' + kw, 'pos:' + case['pos'], 'spelling:' + case.get('spell', 'plain'), 'via:' + case.get('via', 'read_string'), 'layout:' + case.get('lname', 'plain'), 'branch:' + acc['branch'][:24], 'nparams:%d' % len(kinds)] +
                        ['impl-inner:%s' % family(obs['quiet']['inner'])],
@@ -535,8 +537,12 @@ def _evaluate(ctx, cases, workdir):
             o = obs[ms[0]]
             msel = 'all' if len(ms) == 3 else '+'.join(ms)
             lost = [a for a in want_atoms if a not in [x.upper() for x in o['atoms']]]
+            shown = " ".join([case.get("kwtext", case["kw"])] + case["toks"])
+            if case['pos'] == 'header':     # name the header line the parse stopped on, and what stood before it
+                at = max(i for i, f in enumerate(first) if f <= min(o['errline'], first[-1]))
+                shown = ' / '.join(' '.join(t) for t, _ in lines[max(0, at - 2):at + 1])
             ctx.fail(f'{base}|{kind}|modes={msel}',
-                     f'valid `{" ".join([case.get("kwtext", case["kw"])] + case["toks"])}` ({case["pos"]}) in {msel} mode(s): {kind}; '
+                     f'valid `{shown}` ({case["pos"]}' + (f', layout {case["lname"]}' if case.get('layout') is not None else '') + f') in {msel} mode(s): {kind}; '
                      f'parse stopped at line {o["errline"] + 1} of {nphys}; atoms not recognised: {lost}', payload)
         if not bad_modes:
             a = [(obs[m]['atoms'], obs[m]['restraint'], obs[m]['restraint2'], obs[m]['hklf'], obs[m]['end'], obs[m]['wght'], obs[m]['errline']) for m in MODES]
@@ -768,7 +774,29 @@ def header_cases(tab):
         hist = ','.join(f'{sl}{cnt[sl]}' for sl in ('symm', 'neut', 'sfac', 'disp') if sl in cnt) + \
             (',pre' if any(h[0] in ('MORE', 'REM', 'TEMP', 'SIZE') for h in hdr) else '')
         unit = hdr[-1]
-        out.append(dict(stream='valid', kw='UNIT', toks=unit[1:], pos='header', header=hdr, hist=hist, nsfac=nel))
+        c = dict(stream='valid', kw='UNIT', toks=unit[1:], pos='header', header=hdr, hist=hist, nsfac=nel)
+        if pn % 4 == 1:
+            c['via'] = 'file'           # second entry point
+        if pn % 4 == 3:
+            c['via'] = 'second-call'    # on an object that has parsed another header before
+        out.append(c)
+    return out
+
+
+def repeat_cases(valid):
+    """every body instruction (bare and longest form) and FVAR two and three times in a row: the second meets whatever the
+    handler of the first left behind"""
+    pick = {}
+    for c in valid:
+        if c.get('spell') or c.get('kwtext') or c.get('via') or c.get('layout') is not None or c['pos'] not in ('instr', 'fvar'):
+            continue
+        lo, hi = pick.get(c['kw'], (c, c))
+        pick[c['kw']] = (c if len(c['toks']) < len(lo['toks']) else lo, c if len(c['toks']) > len(hi['toks']) else hi)
+    out = []
+    for kw, (lo, hi) in pick.items():
+        for c in ([lo] if lo is hi else [lo, hi]):
+            for n in (2, 3):
+                out.append(dict(c, repeat=n, spell=f'repeated={n}'))
     return out
 
 
@@ -837,7 +865,7 @@ def layout_cases(tab, valid, rng, nrandom):
         wraps = sorted(set(rng.randrange(1, n) for _ in range(nw))) if n > 1 else []
         lay = dict(wraps=wraps, tails=[rng.choice(TAILS) for _ in wraps], trail=rng.choice(TRAILS), indent=rng.choice([' ', '  ', '    ', ' ' * 9]),
                    sep=rng.choice([' ', '  ', '   ']), crlf=rng.random() < 0.15)
-        out.append(dict(c, layout=lay, lname='random', ambient=rng.random() < 0.3))
+        out.append(dict(c, layout=lay, lname='random', ambient=rng.random() < 0.3, **(dict(via='file') if rng.random() < 0.2 else {})))
     return out
 
 
@@ -973,11 +1001,16 @@ def include_mutants(valid):
 
 def run(ctx):
     ctx.rule = ('one case = one instruction line (keyword, concrete tokens, residue suffix) at one position of a by-construction file, '
-                'parsed in quiet, verbose and debug mode; distinct by (keyword text, tokens, position, header variant); non-trivial = the '
+                'parsed in quiet, verbose and debug mode (or one header history / one physical layout of such a line / the line repeated); '
+                'distinct by (keyword text, tokens, position, header variant, header history, layout, repetition); non-trivial = the '
                 'line is dispatched to a branch of _parse_cards other than the final else (it reaches a handler that indexes / converts '
                 'tokens or constructs a card) or is a FRAG block; near/mutant cases: distinct by text')
     ctx.assumptions = ['UNIT carries one number per SFAC element', 'residue numbers within -999..9999', 'DFIX/DANG/SADI carry atom pairs, '
-                       'd > s, d and NCSY DN non-zero', 'no `=` inside TITL/instruction text (continuation handling is C05)',
+                       'd > s, d and NCSY DN non-zero', 'no `=` inside TITL/REM text; `=` as continuation mark (with blanks, tabs or a `!` comment behind it) is '
+                       'generated for every other keyword and for atoms: layout is not content, the expectation is the same',
+                       'continuation lines begin with at least one blank (not a tab)',
+                       'header = a path through the grammar of the specification (Slot.next): TITL CELL ZERR LATT SYMM* NEUT? SFAC+ DISP* UNIT, '
+                       'body instructions allowed in front of SFAC',
                        'REM lines that imitate the residual summary of a .res file are not generated']
     tab = ctx.driver.one(dict(p='C02', op='table'))
     ctx.extra['syntax_table'] = dict(keywords=len(tab['syntax']), forms=sum(len(r['forms']) for r in tab['syntax']), atom_forms=len(tab['atoms']),
@@ -985,7 +1018,9 @@ def run(ctx):
     thorough = ctx.tier == 'thorough' or ctx.escalated
     valid = valid_cases(tab, suffixes=('', '_2', '_TOL', '_*') if thorough else ('', '_2'))
     ctx.exhaustive = True
-    ctx.extra['product'] = 'every keyword x every form of the syntax table x every position x 3 modes (exhaustive in both tiers)'
+    ctx.extra['product'] = ('every keyword x every form of the syntax table x every position x 3 modes; every path through the header grammar with '
+                            'each slot <= %d times; every keyword (longest form) and atom shape x %d physical layouts (exhaustive in both tiers)' % (HEADER_REP, len(LAYOUTS)))
+    valid += repeat_cases(valid)
     valid += header_cases(tab)
     valid += layout_cases(tab, valid, ctx.rng, ctx.budget(300, 6000))
     near = near_cases(ctx.rng, valid, ctx.budget(600, 6000))
